@@ -117,7 +117,7 @@ def bounded_leg(eng, prop, tier, seed):
     quick = tier != 'thorough'
     focus = None        # every policy module: the enumeration is cheap, and dtype / container effects are out of the
     #                     prover's reach in every module (A1, A4)
-    budget = int(os.environ.get('PYVC_RT_BUDGET', '90' if quick else '900'))
+    budget = int(os.environ.get('PYVC_RT_BUDGET', '90' if quick else '360'))
     res = run_rt(eng.repo.root, prop, focus=focus, budget=budget, seed=seed, tier=tier, keep_going=True)
     known = _known()
     new, hits = [], []
